@@ -1,6 +1,9 @@
 package chans
 
-import "time"
+import (
+	"sync"
+	"time"
+)
 
 // C10 — PubSub delivers every event exactly once to every subscriber.
 
@@ -19,13 +22,18 @@ type c10ps struct {
 	logs     [][]int
 	closed   []bool
 	timeouts []int // events passed to OnPubTimeout
+	mu       sync.Mutex
 }
 
 func c10new(nsub int) *c10ps {
 	s := &c10ps{ps: &PubSub[int]{}}
 	s.ps.DefaultBuffer = vChoose("buffer", 2)
 	s.ps.PubTimeoutAfter = time.Duration(vInt64("timeoutAfter"))
-	s.ps.OnPubTimeout = func(ev int) { s.timeouts = append(s.timeouts, ev) }
+	s.ps.OnPubTimeout = func(ev int) {
+		s.mu.Lock()
+		s.timeouts = append(s.timeouts, ev)
+		s.mu.Unlock()
+	}
 	s.logs = make([][]int, nsub)
 	s.closed = make([]bool, nsub)
 	for i := 0; i < nsub; i++ {
@@ -104,20 +112,7 @@ func VHPubDeliver() {
 	variant := vChoose("variant", 6)
 	s.receivers()
 	s.publish(variant, evs)
-	// the synchronous and waiting variants return only after every hand-off has finished
 	timeoutOn := s.ps.PubTimeoutAfter > 0
-	if variant >= pubWait {
-		for i := range s.subs {
-			for _, e := range evs {
-				d := c10count(s.logs[i], e)
-				if !timeoutOn {
-					// the hand-off to the receiver's goroutine has happened; its log entry may lag by
-					// the receiver's own append, so count what is in the log or still in the buffer
-					_ = d
-				}
-			}
-		}
-	}
 	vWait() // quiescence: receivers are blocked on their (still open) channels
 	for i := range s.subs {
 		vAssert(!s.closed[i], "no subscriber channel is closed while it stays subscribed")
@@ -169,6 +164,12 @@ func VHPubWaitReturns() {
 		returned = true
 	})
 	vWait()
+	if !returned {
+		// (no receive here: that would complete the blocked hand-off)
+		vAssert(len(s.subs[0]) == 0 && len(s.timeouts) == 0, "a publish call that has not returned has neither delivered nor timed out")
+		vCover("waitreturns: still blocked")
+		return
+	}
 	delivered := 0
 	select {
 	case x := <-s.subs[0]:
